@@ -537,6 +537,8 @@ def handcrafted_c12():
     out.append(("hc_f5b", tzif.write_tzif(b"2", [BIG_BANG + 1, I64_MAX], [1, 2], ty, abbr, b"", v1_block=False)))
     out.append(("hc_f8", tzif.write_tzif(b"3", [100000000], [1], [(0, 0, 0), (3600, 0, 4), (0, 1, 8)], abbr, b"STD-1DST0,J365/25:30,J1/0", v1_block=False)))
     out.append(("hc_tie", tzif.write_tzif(b"2", [100000000], [1], ty, abbr, b"STD5DST4,J1/0,J1/0", v1_block=False)))
+    out.append(("hc_types300dst", tzif.write_tzif(b"2", [100000000], [0], [(3600, 1, 0)] * 300, b"DST\0", b"", v1_block=False)))
+    out.append(("hc_types300std", tzif.write_tzif(b"2", [100000000], [0], [(3600, 1, 0)] * 299 + [(0, 0, 0)], b"DST\0", b"", v1_block=False)))
     out.append(("hc_empty", b""))
     out.append(("hc_hdr_only", b"TZif2" + b"\0" * 15 + struct.pack(">6l", 0, 0, 0, 0, 1, 1)))
     return out
